@@ -51,6 +51,8 @@ pub struct Model {
     pub sym: SymC,
     pub topics: BTreeMap<(u8, u8, u8), TopicModel>,
     pub restarts: u32,
+    /// appends / batch appends that returned an error or panicked so far
+    pub failed_appends: u32,
     /// the FIFO part of the model can no longer be trusted (a core discrepancy occurred)
     pub broken: bool,
 }
@@ -75,7 +77,7 @@ impl Model {
             sym.open[0] = Some((0, 0));
         }
         let _ = Sym::new(&[]);
-        Model { cfg: cfg.clone(), geom_max_alloc: max_alloc, sym, topics: BTreeMap::new(), restarts: 0, broken: false }
+        Model { cfg: cfg.clone(), geom_max_alloc: max_alloc, sym, topics: BTreeMap::new(), restarts: 0, failed_appends: 0, broken: false }
     }
 
     fn ident(&self) -> (u8, u8) {
@@ -102,7 +104,7 @@ impl Model {
     /// canonical key of the model state for de-duplication
     pub fn key(&self) -> String {
         let mut s = String::new();
-        s.push_str(&format!("{:?}|{}|", self.sym.open, self.sym.cur));
+        s.push_str(&format!("{:?}|{}|r{}|f{}|", self.sym.open, self.sym.cur, self.restarts, self.failed_appends.min(1)));
         for (k, v) in self.sym.seq.iter() {
             s.push_str(&format!("{:?}={},", k, v));
         }
@@ -433,6 +435,11 @@ impl Model {
             }
         }
 
+        if matches!(op, Op::Append { .. } | Op::Batch { .. } | Op::BatchN { .. } | Op::AppendLongTopic { .. })
+            && matches!(obs.res, Res::Err(_) | Res::Panic(_))
+        {
+            self.failed_appends += 1;
+        }
         // post-state observations of the current instance: counts and clean flags
         if self.sym.open[self.sym.cur].is_some() && obs.counts.len() == TOPICS.len() {
             for t in 0..TOPICS.len() as u8 {
